@@ -889,9 +889,11 @@ where
             Some(token) => token,
             None => return Err(StrError::end_of_entry()),
         };
-        for sym in Symbols::new(token.as_ref().chars()) {
+        let mut symbols = Symbols::new(token.as_ref().chars());
+        for sym in &mut symbols {
             op(sym)?;
         }
+        symbols.ok()?;
         Ok(())
     }
 
@@ -900,9 +902,11 @@ where
         F: FnMut(EntrySymbol) -> Result<(), Self::Error>,
     {
         for token in &mut self.iter {
-            for sym in Symbols::new(token.as_ref().chars()) {
+            let mut symbols = Symbols::new(token.as_ref().chars());
+            for sym in &mut symbols {
                 op(sym.into())?;
             }
+            symbols.ok()?;
             op(EntrySymbol::EndOfToken)?;
         }
         Ok(())
@@ -918,11 +922,13 @@ where
         };
         let mut res = <Octets as FromBuilder>::Builder::empty();
 
-        for sym in Symbols::new(token.as_ref().chars()) {
+        let mut symbols = Symbols::new(token.as_ref().chars());
+        for sym in &mut symbols {
             if let Some(data) = convert.process_symbol(sym)? {
                 res.append_slice(data).map_err(Into::into)?;
             }
         }
+        symbols.ok()?;
 
         if let Some(data) = convert.process_tail()? {
             res.append_slice(data).map_err(Into::into)?;
@@ -937,11 +943,13 @@ where
     ) -> Result<Self::Octets, Self::Error> {
         let mut res = <Octets as FromBuilder>::Builder::empty();
         for token in &mut self.iter {
-            for sym in Symbols::new(token.as_ref().chars()) {
+            let mut symbols = Symbols::new(token.as_ref().chars());
+            for sym in &mut symbols {
                 if let Some(data) = convert.process_symbol(sym.into())? {
                     res.append_slice(data).map_err(Into::into)?;
                 }
             }
+            symbols.ok()?;
         }
         if let Some(data) = convert.process_tail()? {
             res.append_slice(data).map_err(Into::into)?;
@@ -955,12 +963,14 @@ where
             None => return Err(StrError::end_of_entry()),
         };
         let mut res = <Octets as FromBuilder>::Builder::empty();
-        for sym in Symbols::new(token.as_ref().chars()) {
+        let mut symbols = Symbols::new(token.as_ref().chars());
+        for sym in &mut symbols {
             match sym.into_octet() {
                 Ok(ch) => res.append_slice(&[ch]).map_err(Into::into)?,
                 Err(_) => return Err(StrError::custom("bad symbol")),
             }
         }
+        symbols.ok()?;
         Ok(<Octets as FromBuilder>::from_builder(res))
     }
 
@@ -981,8 +991,11 @@ where
             Some(token) => token,
             None => return Err(StrError::end_of_entry()),
         };
-        Name::from_symbols(Symbols::new(token.as_ref().chars()))
-            .map_err(|_| StrError::custom("invalid domain name"))
+        let mut symbols = Symbols::new(token.as_ref().chars());
+        let res = Name::from_symbols(&mut symbols)
+            .map_err(|_| StrError::custom("invalid domain name"))?;
+        symbols.ok()?;
+        Ok(res)
     }
 
     fn scan_charstr(&mut self) -> Result<CharStr<Self::Octets>, Self::Error> {
@@ -992,12 +1005,14 @@ where
         };
         let mut res =
             CharStrBuilder::<<Octets as FromBuilder>::Builder>::new();
-        for sym in Symbols::new(token.as_ref().chars()) {
+        let mut symbols = Symbols::new(token.as_ref().chars());
+        for sym in &mut symbols {
             match sym.into_octet() {
                 Ok(ch) => res.append_slice(&[ch])?,
                 Err(_) => return Err(StrError::custom("bad symbol")),
             }
         }
+        symbols.ok()?;
         Ok(res.finish())
     }
 
@@ -1008,7 +1023,8 @@ where
         };
         let mut res = <Octets as FromBuilder>::Builder::empty();
         let mut buf = [0u8; 4];
-        for sym in Symbols::new(token.as_ref().chars()) {
+        let mut symbols = Symbols::new(token.as_ref().chars());
+        for sym in &mut symbols {
             match sym.into_char() {
                 Ok(ch) => res
                     .append_slice(ch.encode_utf8(&mut buf).as_bytes())
@@ -1016,6 +1032,7 @@ where
                 Err(_) => return Err(StrError::custom("bad symbol")),
             }
         }
+        symbols.ok()?;
         Ok(Str::from_utf8(<Octets as FromBuilder>::from_builder(res))
             .unwrap())
     }
@@ -1214,6 +1231,12 @@ impl ScannerError for StrError {
 impl From<ShortBuf> for StrError {
     fn from(_: ShortBuf) -> Self {
         Self::short_buf()
+    }
+}
+
+impl From<SymbolCharsError> for StrError {
+    fn from(err: SymbolCharsError) -> Self {
+        Self::custom(err.as_str())
     }
 }
 
